@@ -85,12 +85,31 @@ func runC01(c clCase, o *vfutil.Obs) *vfutil.Failure {
 	var xx *clExec
 	var readers []*c03Reader
 	nt := false
+	afterTrunc := false
 	hook := c03Hook(&readers, &nt, o)
 	f := runCL(c, o, func(x *clExec, op clOp) (*vfutil.Failure, bool) {
 		xx = x
+		if afterTrunc {
+			// readers positioned inside the truncated suffix are dropped; the
+			// others go on reading across the truncation
+			afterTrunc = false
+			live := readers[:0]
+			for _, rd := range readers {
+				if rd.next <= x.m.newest()+1 {
+					live = append(live, rd)
+				}
+			}
+			if len(live) > 0 {
+				o.Label("reader-parked-across-truncation")
+			}
+			readers = live
+		}
 		switch op.Op {
-		case "truncate", "reopen":
-			// parked readers do not survive a truncation below them or a reopen
+		case "truncate":
+			afterTrunc = true
+			return nil, false
+		case "reopen":
+			// parked readers do not survive a reopen
 			readers = nil
 			return nil, false
 		}
